@@ -85,6 +85,23 @@ CHECKS = {
               'the wallet change (and net_profit the balance change).'),
         note='two genuine defects are recorded as known findings (oversize reduce-only close, flip), keyed by mechanism',
         ref='DESIGN.md section 3 C06'),
+    'C09': dict(
+        technique='offline trace checker over steered sessions (entry planned, candles built around the reference liquidation level)',
+        text=('At every liquidation check of every minute/chunk the monitor decides from the position snapshot, the independent '
+              'formulas and the harness\'s own candle range whether a forced close must / must not happen and checks its form '
+              '(one reduce-only market fill of the whole position at the bankruptcy price, counter +1, no resting orders left, wallet '
+              'loss = initial margin + fee); leverage 1..125, long/short, averaged entries, one-ulp touches, gaps, protective stops, '
+              'cross and spot controls, both simulators.'),
+        note='the reference prices use the documented formulas evaluated in the same floating-point order (strict one-ulp boundary tests)',
+        ref='DESIGN.md section 3 C09'),
+    'C10': dict(
+        technique='offline trace checker of declarations vs submitted/active orders + dense sweep of the routing rule through the real broker',
+        text=('Every submitted order of scripted sessions is matched to a row of the strategy\'s latest logged declaration and its type '
+              'to the routing rule at the current price; at every after() active exits are matched injectively to the latest '
+              'declaration (no stale exit, none after close); entry cancellations are compared with should_cancel_entry(); the rule '
+              'is swept densely around the 0.015 % boundary (incl. float neighbours) through the real routing functions.'),
+        note='wrong-sided initial exits (replaced by market orders, a documented convenience) are not driven',
+        ref='DESIGN.md section 3 C10'),
 }
 
 NOT_YET = 'check under construction in this round (see DESIGN.md section 3); not claimed until it runs clean on the unchanged tree'
